@@ -1277,7 +1277,6 @@ class Scope:
         self.stable = set()   # parameter names never rebound in this function
         self.immutable_param = {}  # parameter name -> annotated with an immutable type
         self.weak = set()     # names read by nested functions / lambdas: never strongly updated once bound
-        self.maybe_written = set()  # names that may be mutated in place somewhere in this function
 
     def setup_function(self, fn):
         """per-function syntactic facts: captured names, names possibly mutated, function-valued locals"""
@@ -1289,27 +1288,6 @@ class Scope:
         for n in ast.walk(fn):
             if isinstance(n, (ast.Lambda, ast.FunctionDef)) and n is not fn:
                 self.weak |= free_names(n)
-        # names that may be changed in place: any use other than a plain read in a test / subscript / attribute load
-        for n in ast.walk(fn):
-            if isinstance(n, (ast.Subscript, ast.Attribute)) and isinstance(n.ctx, (ast.Store, ast.Del)):
-                r = n
-                while isinstance(r, (ast.Subscript, ast.Attribute)):
-                    r = r.value
-                if isinstance(r, ast.Name):
-                    self.maybe_written.add(r.id)
-            elif isinstance(n, ast.AugAssign) and isinstance(n.target, ast.Name):
-                self.maybe_written.add(n.target.id)
-            elif isinstance(n, ast.Call):
-                for a in list(n.args) + [k.value for k in n.keywords]:
-                    for m in ast.walk(a):
-                        if isinstance(m, ast.Name):
-                            self.maybe_written.add(m.id)
-                if isinstance(n.func, ast.Attribute):
-                    r = n.func.value
-                    while isinstance(r, (ast.Subscript, ast.Attribute)):
-                        r = r.value
-                    if isinstance(r, ast.Name):
-                        self.maybe_written.add(r.id)
 
     def prebind_captured(self, fn, out):
         """local names that nested functions / lambdas read are only ever weakly updated (`v := v | new`: the closure
@@ -1697,6 +1675,8 @@ class Scope:
             for item in s.items:
                 val = self.expr(item.context_expr, out, stack)
                 if item.optional_vars is not None:
+                    if not (self.is_arr(val) or val.tag is not None or val.neutral()):
+                        val = val | self.elem(out, val, view=True)  # what `__enter__` returns: the manager or a part of it
                     self.assign(item.optional_vars, val, out, stack)
             self.block(s.body, out, stack, jl)
         elif isinstance(s, ast.Try):
@@ -1728,17 +1708,6 @@ class Scope:
             raise Unsupported("class definition inside a function")
         else:
             raise Unsupported(f"statement {type(s).__name__}")
-
-    @staticmethod
-    def loop_bound_names(s):
-        out = set()
-        for n in ast.walk(s):
-            if isinstance(n, ast.Name) and isinstance(n.ctx, ast.Store):
-                out.add(n.id)
-            elif isinstance(n, ast.ExceptHandler) and n.name:
-                out.add(n.name)
-        # comprehension / lambda variables are their own scopes, but binding them early is harmless
-        return out
 
     def ret(self, val: Val, out):
         if self.top:
